@@ -14,6 +14,7 @@ TRUSTED_BASE = [
 ASSUMPTIONS = [
     "one connection at a time; no TLS, no dial errors, no context expiry or deadline during the exchange (a silent broker is not among the faults: neither path arms a deadline for the raw exchange, see notes)",
     "the broker answers ApiVersions v0; advertised MaxVersion of SaslHandshake / SaslAuthenticate in {absent, -1, 0, 1, 2, 3}; MinVersion is ignored by both paths",
+    "raw response read: the model counts the bytes allocated for the response body (io.ReadAll's buffer and its regrowths; append's capacity choice is only assumed to lie between 1.25x and 2x, size-class rounding ignored); the harness measures the process-wide TotalAlloc of the whole dial / round trip in a child process, which includes the client's and the in-process fake broker's other allocations (about 0.1-0.2 MB), hence the 1 MiB slack",
     "re-authentication on a handed-out connection is not modelled (LUse excludes api keys 17 and 36)",
     "PLAIN ignores the server's payload (sasl/plain Next returns done whatever the challenge): a success response carrying junk is not a failing step for PLAIN, in the model and in the check",
 ]
@@ -37,9 +38,31 @@ def go_build_c18():
     return out
 
 
+def hexint(s):
+    return -int(s[1:], 16) if s.startswith("-") else int(s, 16)
+
+
 def parse_args(args):
-    path, mech, hs, au, cred, fstep, fkind, credidx = args.split(" ")
+    f = args.split(" ")
+    if len(f) == 7:       # op rawread: a raw response (prefix, payload bytes, ending) at step fstep of a v0 exchange
+        path, mech, cred, fstep, prefix, npay, end = f
+        prefix, npay = hexint(prefix), hexint(npay)
+        return dict(path=path, mech=mech, hs="0", au="-", cred=cred, fstep=fstep, fkind="rawresp", credidx="0",
+                    prefix=prefix, npay=npay, end=end, complete=0 <= prefix <= npay)
+    path, mech, hs, au, cred, fstep, fkind, credidx = f
     return dict(path=path, mech=mech, hs=hs, au=au, cred=cred, fstep=fstep, fkind=fkind, credidx=credidx)
+
+
+ALLOC_SLACK = 1 << 20      # Transport path: TotalAlloc of the whole round trip <= 1 MiB + 4 x bytes put on the wire
+
+
+def parse_meas(m):
+    """'alloc=N recv=M' -> (N, M)"""
+    try:
+        d = dict(x.split("=") for x in (m or "").split())
+        return int(d.get("alloc", 0)), int(d.get("recv", 0))
+    except ValueError:
+        return 0, 0
 
 
 def parse_result(res):
@@ -48,7 +71,7 @@ def parse_result(res):
         return dict(special=res.strip() or "NORESULT")
     f = dict(x.split("=", 1) for x in res.split(" "))
     toks = [] if f["J"] == "." else f["J"].split(",")
-    return dict(special=None, toks=toks, E=f["E"] == "1", C=f["C"] == "1")
+    return dict(special=None, toks=toks, E=f["E"] == "1", C=f["C"] == "1", K=f.get("K"))
 
 
 def expected_hs(a):
@@ -67,6 +90,10 @@ def failing_step_expected(a, feats):
         return True
     if a["fkind"] == "junk" and "fault-reached" in feats and a["mech"] != "plain":
         return True
+    if a["fkind"] == "rawresp":
+        # anything but a complete response is a failing step; a complete one carries junk: PLAIN
+        # ignores it, SCRAM rejects it
+        return not (a["complete"] and a["mech"] == "plain")
     if a["cred"] in ("wrongpw", "nouser") and a["fkind"] == "junk" and "fault-reached" not in feats:
         return True
     return False
@@ -79,6 +106,10 @@ def violations_of(c):
     r = parse_result(c["go"])
     feats = c["feats"].split(",")
     out = []
+    if r["special"] == "OOM":
+        if a["path"] == "d" and a["fkind"] == "rawresp":
+            return []     # Conn path allocates the announced length (observation, outside C20's scope)
+        return [("the client ran out of memory (ulimit -v) while setting up the connection", None)]
     if r["special"] == "PANIC":
         return [("the client panicked while setting up the connection (no error returned, process dies)", None)]
     if r["special"] == "HANG":
@@ -92,6 +123,12 @@ def violations_of(c):
     if a["cred"] == "prohib":
         return [("the SCRAM mechanism accepted a string SASLprep prohibits", None)]
     toks = r["toks"]
+    # 0. the raw response read allocates in proportion to what arrived (Transport path)
+    if a["fkind"] == "rawresp" and a["path"] == "t":
+        alloc, recv = parse_meas(c.get("meas"))
+        if alloc > ALLOC_SLACK + 4 * recv:
+            out.append((f"Transport raw SASL response read: {alloc} bytes allocated (runtime.MemStats.TotalAlloc) for a response of which "
+                        f"{recv} bytes arrived (announced length {a['prefix']}); bound 1 MiB + 4 x received", "group:rawread-alloc"))
     # 1. nothing but ApiVersions / SaslHandshake / SaslAuthenticate / raw bytes before the verdict
     seen_v = False
     for t in toks:
@@ -101,7 +138,7 @@ def violations_of(c):
         base = t.rstrip("!").split("?")[0]
         is_auth = base == "raw" or base.split(".")[0] in AUTH_KEYS
         if not is_auth and not seen_v:
-            if a["fkind"] == "junk" and a["mech"] == "plain":
+            if a["fkind"] in ("junk", "rawresp") and a["mech"] == "plain":
                 continue          # PLAIN ignores the payload of a success response (see ASSUMPTIONS)
             out.append((f"request {t} written before the broker accepted the authentication", None))
             break
@@ -158,8 +195,14 @@ def correspondence(ctx):
     cases, notes = [], {}
     for k in range(ctx.scale(1, 6)):      # thorough: more nonces, salts and random credentials
         out, ns = run_harness(gobin, ctx.seed + k)
+        meas = {}
+        for line in out.splitlines():
+            parts = line.split(" | ")
+            if len(parts) > 3:
+                meas[parts[0].split(" ", 1)[0]] = parts[3].strip()
         for c in L.parse_cases(out):
             old_id = c["id"]
+            c["meas"] = meas.get(old_id, "")
             c["id"] = str(len(cases) + 1)
             c["seed"] = ctx.seed + k
             if old_id in ns:
@@ -167,15 +210,21 @@ def correspondence(ctx):
             c["line"] = c["id"] + " " + c["op"] + " " + c["args"]
             cases.append(c)
     res = L.run_model(model, "\n".join(c["line"] for c in cases) + "\n")
+    model_meas = {}
+    for i, r in list(res.items()):      # "<compared part> ; malloc=<hex> mrecv=<hex>"
+        if " ; " in r:
+            res[i], tail = r.split(" ; ", 1)
+            d = dict(x.split("=") for x in tail.split())
+            model_meas[i] = (int(d["malloc"], 16), int(d["mrecv"], 16))
     bad = L.diff_cases(cases, res)
     failures, by_key = [], {}
 
     def add(layer, what, c, key=None, model=None):
-        inp = dict(case=c["line"], go=c["go"], model=model, seed=c.get("seed"), note=notes.get(c["id"], "")) if layer == "property" else None
+        inp = dict(case=c["line"], go=c["go"], model=model, seed=c.get("seed"), meas=c.get("meas"), note=notes.get(c["id"], "")) if layer == "property" else None
         if key and key in by_key:
             by_key[key]["n"] += 1
             return
-        f = dict(layer=layer, what=what, key=key, input=inp,
+        f = dict(layer=layer, what=what, key=None if (key or "").startswith("group:") else key, input=inp,
                  detail=json.dumps(dict(case=c["line"], go=c["go"], model=model, note=notes.get(c["id"], "")[:600])))
         if key:
             by_key[key] = dict(f=f, n=1)
@@ -204,7 +253,7 @@ def correspondence(ctx):
     for c in cases:
         fs = c["feats"].split(",")
         for f in fs:
-            if f.split("=")[0] in ("path", "mech", "hs", "cred", "fault", "fstep", "credcase", "err") or "=" not in f:
+            if f.split("=")[0] in ("path", "mech", "hs", "cred", "fault", "fstep", "credcase", "err", "prefix", "end", "payload") or "=" not in f:
                 hist[f] = hist.get(f, 0) + 1
         if "product" in fs:
             n_product += 1
@@ -212,7 +261,26 @@ def correspondence(ctx):
             n_side += 1
         if not ("fault=none" in fs and "cred=right" in fs and not any(f.startswith("credcase=") for f in fs)):
             nontrivial.add(hashlib.sha1((c["op"] + " " + c["args"]).encode()).hexdigest())
-    samples = [c["line"] + " | " + c["go"] + " | " + c["feats"] for c in cases[:2] + cases[400:402] + cases[len(cases) // 2:len(cases) // 2 + 2] + cases[-2:]]
+    samples = [c["line"] + " | " + c["go"] + " | " + c["feats"] + " | " + c.get("meas", "")
+               for c in cases[:2] + cases[400:402] + cases[len(cases) // 2:len(cases) // 2 + 2] + cases[-2:]]
+    # the raw response read: measured allocation per path
+    raw = [c for c in cases if c["op"] == "rawread"]
+    t_max = dict(alloc=0)
+    conn_obs = {}
+    for c in raw:
+        a = parse_args(c["args"])
+        alloc, recv = parse_meas(c.get("meas"))
+        if a["path"] == "t":
+            if alloc >= t_max["alloc"]:
+                t_max = dict(alloc=alloc, recv=recv, case=c["line"])
+        else:
+            k = "announced=%d" % a["prefix"]
+            o = conn_obs.setdefault(k, dict(max_alloc=0, oom=0))
+            o["max_alloc"] = max(o["max_alloc"], alloc)
+            if c["go"].startswith("OOM"):
+                o["oom"] += 1
+    model_bound_ok = all(m[0] <= 10 * m[1] + 2560 for i, m in model_meas.items()
+                         if parse_args(cases[int(i) - 1]["args"])["path"] == "t")
     return dict(evaluations=len(cases), distinct_nontrivial=len(nontrivial), hist=hist,
                 rule="EXHAUSTIVE product (tag 'product'): {Dialer.DialContext then ReadPartitions, Transport.RoundTrip(metadata)} x {PLAIN, SCRAM-SHA-256, SCRAM-SHA-512} "
                      "x {handshake v0 (raw bytes), v1 (framed)} x {right credentials, wrong password, unknown user} x {no fault, or a fault at each step "
@@ -222,10 +290,23 @@ def correspondence(ctx):
                      "(=/, escapes, literal =2C, spaces, UTF-8, 12 SASLprep cases as user name and as password incl. 2 prohibited, 24 random strings from the PRNG seeded "
                      "by VERIF_SEED) x mechanisms x versions x {right, wrong password} x paths. Each case: fresh in-memory connection, real client, journal of the fake "
                      "broker before/after its verdict, result of Dial/RoundTrip, whether the client had closed the connection on return; compared with the extracted model's "
-                     "trace for the same script, and the property's predicates are evaluated on the implementation's own output. Non-trivial: anything but right "
+                     "trace for the same script, and the property's predicates are evaluated on the implementation's own output. "
+                     "Raw response read (op 'rawread', tag 'side'): over a v0 handshake, at each raw step (PLAIN step 2, SCRAM-SHA-256 steps 2 and 3), the broker answers with a "
+                     "length prefix in {0, 1, n, n+1, 2^16, 2^24, 2^30, 2^31-1, -1, -2^31} followed by n in 0..3 payload bytes, then closes or stays silent until the "
+                     "connection's read deadline (armed by the harness, 120 ms), through Dialer.DialContext (Conn path) and Transport.RoundTrip (protocol/saslauthenticate "
+                     "RawExchange); children run under ulimit -v 24 GB with runtime.MemStats.TotalAlloc read around the call; compared with the model: journal, error, closed, "
+                     "outcome class K (ok / mech / eof / ueof / proto / timeout); predicate: Transport allocation <= 1 MiB + 4 x bytes received. Non-trivial: anything but right "
                      "credentials 'alice' without fault; distinct by hash of the case arguments.",
                 samples=samples, failures=failures,
-                extra=dict(exhaustive=True,
+                extra=dict(raw_read_cases=len(raw),
+                           raw_read_transport_max_alloc=t_max,
+                           raw_read_transport_bound="runtime.MemStats.TotalAlloc around Transport.RoundTrip <= 1 MiB + 4 x bytes of the raw response put on the wire",
+                           raw_read_model_bound_holds_on_cases=model_bound_ok,
+                           raw_read_conn_observation=dict(
+                               text="Conn path (conn.go saslAuthenticate raw branch, readNewBytes) allocates the ANNOUNCED length before the payload arrives; "
+                                    "outside C20's scope ('through the Transport/Client stack'), recorded, not flagged; max TotalAlloc around Dialer.DialContext per announced length:",
+                               by_announced=conn_obs),
+                           exhaustive=True,
                            exhaustive_scope=f"the {n_product} cases tagged 'product' enumerate the finite product completely; the {n_side} 'side' cases sample unbounded spaces (credential strings, advertised versions)",
                            traces_validated_against_impl=len(cases) - len(bad),
                            product_cases=n_product, side_cases=n_side),
@@ -270,7 +351,10 @@ def replay(ctx, payload):
         go_now = L.parse_cases(out.splitlines()[0])[0]["go"]
     model = L.ocaml_build("c18")
     print("model now:", L.run_model(model, inp["case"] + "\n"))
-    c = dict(args=args, go=go_now, feats="fault-reached")
+    meas = ""
+    if rc == 0 and len(out.splitlines()[0].split(" | ")) > 3:
+        meas = out.splitlines()[0].split(" | ")[3]
+    c = dict(op=inp["case"].split(" ", 2)[1], args=args, go=go_now, feats="fault-reached", meas=meas)
     v = violations_of(c)
     for what, key in v:
         print("VIOLATES:", what, "" if not key else "[" + key + "]")
